@@ -14,7 +14,7 @@ import (
 func init() {
 	register(&Property{
 		ID:          "C09",
-		Explanation: "For every public type that serves requests (http.Handler / utils.ErrorHandler implementations) or owns a mutex, every exported method is taken as a concurrent entry point with the receiver as the shared object. An interprocedural, flow-sensitive must-lockset analysis names locks and memory locations by access paths from the receiver, follows module callees in the caller's context (including goroutines started with `go`, and String() methods reached through %v logging of the receiver), and records every read and write of receiver-reachable state with the locks certainly held. R1: for every location written by some entry point, every conflicting pair of accesses (write/any, from any two entry points or the same one twice) must share a lock that excludes them (mutex, or RWMutex with the write side in exclusive mode; a reader that cleans up, e.g. RollingCounter.Count, is a writer). R2: objects reached through interfaces that are not concurrency-safe by contract (io.Writer, Meter, foreign pointer receivers such as hdrhistogram) count as written by every call. R3: every Lock is released on every path to a return. All call paths are enumerated; nothing is executed. R4: no self-deadlock (a lock operation on a mutex in the must-lockset; String() methods reached through %v formatting included). R5: Clone/Export snapshot methods return a fresh allocation none of whose slice/map/pointer fields (nor container elements) is taken from the receiver, also after a by-value struct copy. R6 (= C03.R6): look-up, creation, re-arming and consumption of a source's bucket set form one critical section of the limiter.",
+		Explanation: "For every public type that serves requests (http.Handler / utils.ErrorHandler implementations) or owns a mutex, every exported method is taken as a concurrent entry point with the receiver as the shared object. An interprocedural, flow-sensitive must-lockset analysis names locks and memory locations by access paths from the receiver, follows module callees in the caller's context (including goroutines started with `go`, and String() methods reached through %v logging of the receiver), and records every read and write of receiver-reachable state with the locks certainly held. R1: for every location written by some entry point, every conflicting pair of accesses (write/any, from any two entry points or the same one twice) must share a lock that excludes them (mutex, or RWMutex with the write side in exclusive mode; a reader that cleans up, e.g. RollingCounter.Count, is a writer). R2: objects reached through interfaces that are not concurrency-safe by contract (io.Writer, Meter, foreign pointer receivers such as hdrhistogram) count as written by every call. R3: every Lock is released on every path to a return. All call paths are enumerated; nothing is executed. R4: no self-deadlock (a lock operation on a mutex in the must-lockset; String() methods reached through %v formatting included). R5: Clone/Export snapshot methods return a fresh allocation none of whose slice/map/pointer fields (nor container elements) is taken from the receiver, also after a by-value struct copy. R6 (= C03.R6): look-up, creation, re-arming and consumption of a source's bucket set form one critical section of the limiter. R7: an insertion into a map field after a look-up of the key lies on the not-found edge of a look-up made under the same lock acquisition (no unlock in between). R8: a critical section that may call user-supplied code (function values, the module's extension interfaces) is released by a deferred unlock. Root types include the module's implementations of its own extension interfaces and the internal TTL map (exported methods of internal types that are only called from the type's own methods are helpers, decided on the call graph).",
 		NotDecided: []string{
 			"atomicity across two critical sections (check-then-act split over unlock/relock)",
 			"races inside user-supplied objects (handlers, extractors, listeners, loggers, meters supplied by the user)",
@@ -401,6 +401,9 @@ func mutantsC09() []Mutant {
 		{Name: "string-takes-rlock", File: "cbreaker/cbreaker.go", Old: "func (c *CircuitBreaker) String() string {\n", New: "func (c *CircuitBreaker) String() string {\n\tc.m.RLock()\n\tdefer c.m.RUnlock()\n", Expect: "C09.R4"},
 		{Name: "clone-shallow", File: "memmetrics/counter.go", Old: "\tother := &RollingCounter{\n\t\tresolution:  c.resolution,\n\t\tvalues:      make([]int, len(c.values)),\n\t\tlastBucket:  c.lastBucket,\n\t\tlastUpdated: c.lastUpdated,\n\t}\n\tcopy(other.values, c.values)\n\treturn other\n", New: "\tother := *c\n\treturn &other\n", Expect: "C09.R5"},
 		{Name: "lookup-outside-mutex", File: "ratelimit/tokenlimiter.go", Old: "\ttl.mutex.Lock()\n\tdefer tl.mutex.Unlock()\n\n\teffectiveRates := tl.resolveRates(req)\n\tbucketSetI, exists := tl.bucketSets.Get(source)\n", New: "\teffectiveRates := tl.resolveRates(req)\n\tbucketSetI, exists := tl.bucketSets.Get(source)\n\n\ttl.mutex.Lock()\n\tdefer tl.mutex.Unlock()\n", Expect: "C09.R6"},
+		{Name: "statuscode-insert-without-recheck", File: "memmetrics/roundtrip.go", Old: "\t// Check if another goroutine has written our counter already\n\tif c, ok := m.statusCodes[statusCode]; ok {\n\t\tc.Inc(1)\n\t\treturn nil\n\t}\n\n", New: "", Expect: "C09.R7"},
+		{Name: "aes-nonce-scratch-field", File: "roundrobin/stickycookie/aes_value.go", Old: "\tnonce := make([]byte, 12)\n", New: "\tnonce := v.scratch[:]\n", More: []Edit{{"roundrobin/stickycookie/aes_value.go", "type AESValue struct {\n", "type AESValue struct {\n\tscratch [12]byte\n"}}, Expect: "C09.R1"},
+		{Name: "limiter-explicit-unlock", File: "ratelimit/tokenlimiter.go", Old: "\ttl.mutex.Lock()\n\tdefer tl.mutex.Unlock()\n\n\teffectiveRates := tl.resolveRates(req)\n", New: "\ttl.mutex.Lock()\n\n\teffectiveRates := tl.resolveRates(req)\n\ttl.mutex.Unlock()\n\ttl.mutex.Lock()\n\tdefer tl.mutex.Unlock()\n", Expect: "C09.R8"},
 	}
 }
 
